@@ -538,6 +538,61 @@ func runC09(c *fw.Ctx) {
 	}
 	c.Case(func(k *fw.K) { c09Layers(k, pool) })
 	c.Case(func(k *fw.K) { c09LossesMetricsOptim(k, pool) })
+	// every matrix-product geometry with extents 1..9 (kernels specialised by size have geometries of their own), forward and backward
+	for m := 1; m <= 9; m++ {
+		m := m
+		c.Case(func(k *fw.K) { c09MatMulSweep(k, m) })
+	}
+}
+
+// c09MatMulSweep: [m,n] x [n,q] for every n, q in 1..9 (with and without a batch dimension on either side), the Dot of two
+// [m,n] operands, and a back-propagation through each with both operands tracked: valid calls, so each returns its result.
+func c09MatMulSweep(k *fw.K, m int) {
+	for n := 1; n <= 9; n++ {
+		for q := 1; q <= 9; q++ {
+			batch := [][2][]int{{{}, {}}, {{2}, {}}, {{}, {2}}, {{1}, {3}}}[(m+n+q)%4]
+			sa, sb := append(ref.CopyInts(batch[0]), m, n), append(ref.CopyInts(batch[1]), n, q)
+			a, b := rt.MustLeaf(RandT(k.Rng, sa, -2, 2), true), rt.MustLeaf(RandT(k.Rng, sb, -2, 2), true)
+			bs, _ := ref.BroadcastShape(batch[0], batch[1])
+			var y tensor.Tensor
+			chk(k, "MatMul", "geometry-sweep", fmt.Sprintf("%v x %v", sa, sb), okShape(append(ref.CopyInts(bs), m, q)), func() (tensor.Tensor, error) {
+				var err error
+				y, err = a.MatMul(b)
+				return y, err
+			})
+			if k.Failed() {
+				return
+			}
+			var err error
+			if p := call(func() { err = tensor.BackPropagate(y) }); p != nil || err != nil {
+				k.Case = c09call{Entry: "BackPropagate", Args: fmt.Sprintf("MatMul %v x %v, both operands tracked", sa, sb), Want: "nil error"}
+				k.Failf("BackPropagate over MatMul %v x %v (both operands tracked): panic=%v err=%v", sa, sb, p, err)
+				return
+			}
+			k.Count("calls", 1)
+			k.Count("calls_BackPropagate", 1)
+			if a.Gradient() == nil || b.Gradient() == nil {
+				k.Failf("BackPropagate over MatMul %v x %v returned nil but left an operand without gradient", sa, sb)
+				return
+			}
+		}
+		sa := []int{m, n}
+		a, b := rt.MustLeaf(RandT(k.Rng, sa, -2, 2), true), rt.MustLeaf(RandT(k.Rng, sa, -2, 2), true)
+		var y tensor.Tensor
+		chk(k, "Dot", "geometry-sweep", fmt.Sprintf("%v . %v", sa, sa), okShape([]int{m}), func() (tensor.Tensor, error) {
+			var err error
+			y, err = a.Dot(b)
+			return y, err
+		})
+		if k.Failed() {
+			return
+		}
+		var err error
+		if p := call(func() { err = tensor.BackPropagate(y) }); p != nil || err != nil {
+			k.Failf("BackPropagate over Dot %v . %v (both operands tracked): panic=%v err=%v", sa, sa, p, err)
+			return
+		}
+	}
 }
 
 func c09Constructors(k *fw.K, c *fw.Ctx) {
